@@ -1051,6 +1051,9 @@ class Interp:
                     raise Unsupported("** of a symbolic map in dict display")
                 continue
             kv = self.ev(k, frame)
+            if not self.is_concrete(kv) and isinstance(kv, (SV, tuple)):
+                d.items[kv] = self.ev(v, frame)  # symbolic key kept by identity, compared with ==
+                continue
             if not self.is_concrete(kv) and self.lenient:
                 for vn in node.values:
                     self.ev(vn, frame)
